@@ -220,7 +220,7 @@ impl GenerationalAtomicStorage {
 pub struct Recency<K> {
     mask: MetricKindMask,
     #[allow(clippy::type_complexity)]
-    inner: Mutex<(Clock, HashMap<K, (Generation, Instant)>)>,
+    inner: Mutex<(Clock, HashMap<(MetricKind, K), (Generation, Instant)>)>,
     idle_timeout: Option<Duration>,
 }
 
@@ -316,8 +316,12 @@ where
                 let mut guard = self.inner.lock().unwrap_or_else(PoisonError::into_inner);
                 let (clock, entries) = guard.deref_mut();
 
+                // The same key can be registered under more than one metric kind, and each of those metrics has its
+                // own generation and idle time, so entries are tracked per kind.
+                let entry_key = (kind, key.clone());
+
                 let now = clock.now();
-                let deleted = if let Some((last_gen, last_update)) = entries.get_mut(key) {
+                let deleted = if let Some((last_gen, last_update)) = entries.get_mut(&entry_key) {
                     // If the value is the same as the latest value we have internally, and
                     // we're over the idle timeout period, then remove it and continue.
                     if *last_gen == gen {
@@ -332,12 +336,12 @@ where
                         false
                     }
                 } else {
-                    entries.insert(key.clone(), (gen, now));
+                    entries.insert((kind, key.clone()), (gen, now));
                     false
                 };
 
                 if deleted {
-                    entries.remove(key);
+                    entries.remove(&entry_key);
                     return false;
                 }
             }
